@@ -92,6 +92,9 @@ def generate(rng, tier, index):
                            'cutgap': rng.choice([0.0, 0.0005]) if kind == 'serial' else rng.choice([0.0, 0.001, timeout / 10])})
         if script:
             op['script'] = script
+        if kind == 'serial' and rng.random() < 0.3:
+            # next transaction a few milliseconds later: around the RTU silent interval
+            op['think'] = rng.choice([0.0005, 0.001, 0.002, 0.0025, 0.003, 0.0035, 0.004, 0.006, 0.01])
         ops.append(op)
     scn = {'property': ID, 'harness': 'cli', 'client': {'kind': kind, 'framing': framing, 'kwargs': kw},
            'callers': [ops], 'cpu_step': rng.choice([2e-6, 1e-5, 5e-5]), 'sched': {'tail_seed': rng.randrange(1 << 30)},
